@@ -43,15 +43,15 @@ type jv struct {
 	raw  []byte
 }
 
-func jnull() jv              { return jv{k: jNull} }
-func jbool(b bool) jv        { return jv{k: jBool, b: b} }
-func jint(i int64) jv        { return jv{k: jInt, i: i} }
-func jnum(f float64) jv      { return jv{k: jNum, bits: math.Float64bits(f)} }
-func jstr(s string) jv       { return jv{k: jStr, s: s} }
-func jarr(xs ...jv) jv       { return jv{k: jArr, arr: xs} }
-func jbytes(b []byte) jv     { return jv{k: jBytes, raw: append([]byte{}, b...)} }
-func jbig(dec string) jv     { return jv{k: jBig, s: dec} }
-func jlist(xs []jv) jv       { return jv{k: jArr, arr: xs} }
+func jnull() jv          { return jv{k: jNull} }
+func jbool(b bool) jv    { return jv{k: jBool, b: b} }
+func jint(i int64) jv    { return jv{k: jInt, i: i} }
+func jnum(f float64) jv  { return jv{k: jNum, bits: math.Float64bits(f)} }
+func jstr(s string) jv   { return jv{k: jStr, s: s} }
+func jarr(xs ...jv) jv   { return jv{k: jArr, arr: xs} }
+func jbytes(b []byte) jv { return jv{k: jBytes, raw: append([]byte{}, b...)} }
+func jbig(dec string) jv { return jv{k: jBig, s: dec} }
+func jlist(xs []jv) jv   { return jv{k: jArr, arr: xs} }
 func jopt(p bool, v jv) jv {
 	if !p {
 		return jnull()
